@@ -4,6 +4,7 @@
   Property theorems only; helper lemmas live in Rtp/Proofs/VP9*.lean.
 -/
 import Rtp.Proofs.VP9
+import Rtp.Proofs.VP9Pay
 namespace Rtp.Props.C12
 open Rtp Rtp.Model Rtp.Pred
 open Rtp.Spec.Vp9Rtp (Descriptor)
@@ -68,5 +69,39 @@ theorem c12_dec (d : Descriptor) (hwf : d.WF 5 = true) (payload : Bytes) (k : Na
     generalize vp9Unmarshal {} (some (d.encode.take k)) = r at he
     obtain ⟨r1, r2⟩ := r
     cases r1 <;> simp_all [Res.isErr, Res.coarse]
+
+/-! ### the payloader -/
+
+/-- `c12_roundtrip`, `c12_be`, `c12_picid` for FLEXIBLE mode, unconditionally: for every injected
+    initial picture id and every history of (MTU, frame) calls, feeding the payloader's output to
+    ONE VP9Packet receiver satisfies the round-trip predicate the harness evaluates on the real code:
+    for every non-empty frame with MTU > 3 the payloads concatenate to the frame, B / IsPartitionHead
+    is set on the first packet only and E on the last only, every packet has I = F = 1 and the 15-bit
+    picture id `(init mod 2^15 + call index) mod 2^15` in the two-octet form. -/
+theorem c12_rt_flex (init : UInt16) (calls : List C12.Call) :
+    C12.rt true init calls (C12.obsRt true init calls) = true :=
+  Proofs.VP9.rt_obsRt true init calls (fun _ _ h => by cases h)
+
+/-- the full statement for both modes -/
+def c12_rt_full : Prop :=
+  ∀ (flex : Bool) (init : UInt16) (calls : List C12.Call),
+    C12.rt flex init calls (C12.obsRt flex init calls) = true
+
+/-- `c12_roundtrip`, `c12_be`, `c12_picid`, `c12_p`, `c12_ss` for both modes, given for each call of
+    the history the header facts (`HdrFacts`: the model of vp9.Header.Unmarshal reports the frame
+    type and the coded width and height of a frame that starts with the bits of a well-formed header
+    description — which is `c12_header`).  In NON-FLEXIBLE mode additionally: P = "not a key frame"
+    on every packet and the first packet of a key frame carries V with exactly one spatial layer
+    (N_S = 0, Y = 1) whose width and height are the coded ones. -/
+theorem c12_rt_partial (flex : Bool) (init : UInt16) (calls : List C12.Call)
+    (hh : ∀ c ∈ calls, flex = false → Proofs.VP9.HdrFacts c) :
+    C12.rt flex init calls (C12.obsRt flex init calls) = true :=
+  Proofs.VP9.rt_obsRt flex init calls hh
+
+/-- non-vacuity: flexible mode, MTU 5, ids 0x7FFF then 0 -/
+example :
+    (vp9PayloadHist { flexible := true, init := 0x7FFF } [(5, some [1, 2, 3]), (5, some [4])]) =
+      [[[0x98, 0xFF, 0xFF, 1, 2], [0x94, 0xFF, 0xFF, 3]], [[0x9C, 0x80, 0x00, 4]]] := by
+  decide +kernel
 
 end Rtp.Props.C12
